@@ -85,7 +85,7 @@ def gen_plan(prop, seed, index, tier="quick", with_faults=None):
                 part = r.randrange(nparts) if mode < 0.7 else None
                 n = r.randint(1, 4)
                 kind = "send"
-                if prop == "C02" and r.random() < 0.12:
+                if r.random() < (0.12 if prop == "C02" else 0.06):
                     kind = "send_batch"
                     part = r.randrange(nparts)
                 ts_mode = r.choice(["default", "default", "explicit", "mixed"])
